@@ -387,9 +387,18 @@ impl Imd {
         debug!("cannot find cyl {} head {}",cyl,head);
         Err(img::Error::SectorAccess)
     }
+    /// Sector count and sector size code of track `trk`, error if there is no such track or it has no sectors.
+    fn track_geometry(&self,trk: usize) -> Result<(u8,u8),DYNERR> {
+        match self.tracks.get(trk) {
+            Some(t) if t.sectors>0 => Ok((t.sectors,t.sector_shift)),
+            _ => {
+                log::error!("track {} does not exist or has no sectors",trk);
+                Err(Box::new(img::Error::SectorAccess))
+            }
+        }
+    }
     fn check_user_area_up_to_cyl(&self,cyl: usize,off: u16) -> STDRESULT {
-        let sectors = self.tracks[off as usize].sectors;
-        let sector_shift = self.tracks[off as usize].sector_shift;
+        let (sectors,sector_shift) = self.track_geometry(off as usize)?;
         if cyl*self.heads >= self.tracks.len() {
             log::error!("track {} was requested, max is {}",cyl*self.heads,self.tracks.len()-1);
             return Err(Box::new(super::Error::TrackCountMismatch));
@@ -465,8 +474,7 @@ impl img::DiskImage for Imd {
         trace!("reading {}",addr);
         match addr {
             Block::CPM((_block,_bsh,off)) => {
-                let secs_per_track = self.tracks[off as usize].sectors;
-                let sector_shift = self.tracks[off as usize].sector_shift;
+                let (secs_per_track,sector_shift) = self.track_geometry(off as usize)?;
                 let mut ans: Vec<u8> = Vec::new();
                 let deblocked_ts_list = addr.get_lsecs((secs_per_track << sector_shift) as usize);
                 let chs_list = skew::cpm_blocking(deblocked_ts_list, sector_shift,self.heads)?;
@@ -483,7 +491,7 @@ impl img::DiskImage for Imd {
                 Ok(ans)
             },
             Block::FAT((_sec1,_secs)) => {
-                let secs_per_track = self.tracks[0].sectors;
+                let (secs_per_track,_) = self.track_geometry(0)?;
                 let mut ans: Vec<u8> = Vec::new();
                 let deblocked_ts_list = addr.get_lsecs(secs_per_track as usize);
                 let chs_list = skew::fat_blocking(deblocked_ts_list,self.heads)?;
@@ -505,8 +513,7 @@ impl img::DiskImage for Imd {
         trace!("writing {}",addr);
         match addr {
             Block::CPM((_block,_bsh,off)) => {
-                let secs_per_track = self.tracks[off as usize].sectors;
-                let sector_shift = self.tracks[off as usize].sector_shift;
+                let (secs_per_track,sector_shift) = self.track_geometry(off as usize)?;
                 let deblocked_ts_list = addr.get_lsecs((secs_per_track << sector_shift) as usize);
                 let chs_list = skew::cpm_blocking(deblocked_ts_list, sector_shift,self.heads)?;
                 let mut src_offset = 0;
@@ -524,8 +531,8 @@ impl img::DiskImage for Imd {
             },
             Block::FAT((_sec1,_secs)) => {
                 // TODO: do we need to handle variable sectors per track
-                let secs_per_track = self.tracks[0].sectors;
-                let sec_size = 128 << self.tracks[0].sector_shift as usize;
+                let (secs_per_track,sector_shift) = self.track_geometry(0)?;
+                let sec_size = 128 << sector_shift as usize;
                 let deblocked_ts_list = addr.get_lsecs(secs_per_track as usize);
                 let chs_list = skew::fat_blocking(deblocked_ts_list,self.heads)?;
                 let mut src_offset = 0;
